@@ -24,7 +24,10 @@ EXPLANATION = (
     "tuple()/join/unpacking/pop()/next(iter()) is followed through names, containers, derived sequences and nested loops to "
     "its consumers: membership, any/all/len/sum/min/max/sorted/set/Counter, Add/Mul, set.add/update, keyed stores, commutative "
     "accumulation, diagnostics and pop() of a set established to have one element end the taint; return/yield, indexing, "
-    "arguments of other functions, per-element effects, order-sensitive comparison are sinks; sorted()/sort()/min()/max() end "
+    "arguments of functions that cannot be looked into, per-element effects, order-sensitive comparison are sinks (an "
+    "argument of a resolvable repository function is followed through the bound parameter of the callee like a local name, a "
+    "tainted return value taints the call; a parameter that receives a set at a call site is itself unordered; a value that "
+    "leaves a private helper only by return is followed into all its callers); sorted()/sort()/min()/max() end "
     "the taint only when their key separates any two elements - the key function is evaluated on a symbolic element and "
     "every returned key must contain the element itself or its dummy_index (sort_idx_canonical does, (space, spin) or a name "
     "does not: ties keep the hash order); an in-place list.sort() with such a key ends "
@@ -61,7 +64,15 @@ EXPLANATION = (
     "on a model expression (a list of tensor names with rename_tensor / atoms, both iteration orders) for seven "
     "configurations (identity, one rename, two defaults swapped, a chain, amplitudes renamed, amplitudes and densities swapped, "
     "a name taken from a later field): every default name incl. t<n>[cc] / p<n> ends up with the name map_default_name "
-    "assigns to it, all at once. R19f: alias flow from every use of a cached method/property whose result is a mutable "
+    "assigns to it, all at once. R19k: simplify is evaluated on a model expression with two terms that are equal up to a "
+    "renaming of contracted indices, once for each order of Expr.terms (sympy orders the arguments by the name strings of the "
+    "generic indices, which wrap around with the counters): the result - which term represents the class - must be the same. "
+    "R19l (cache age): (A) Term.substitute_contracted is evaluated on a model term with two groups of generic indices in both "
+    "age orders - do the lowest names follow the creation age? (B) intermediate_state(2, ph, bra) is evaluated with s_root and "
+    "overlap_precursor looked into and precursor / norm_factor as time-stamped leaves (a cached leaf keeps the stamp of its "
+    "first computation) with cold member caches and with precursor(1, ph, bra, <target indices>) already cached: if the "
+    "relative age of the index groups of a product differs and (A) holds, the text after substitute_contracted depends on "
+    "the cache state; reported under the single key (R19l, misc:cached_member, cache age). R19f: alias flow from every use of a cached method/property whose result is a mutable "
     "container (names, walrus, conditional expressions, reaching definitions) to in-place mutations (mutator methods, item/"
     "attribute stores, augmented assignment, arguments of repository functions that mutate the bound parameter); cached "
     "derivation methods return immutable sympy objects on every evaluated path.")
@@ -71,9 +82,12 @@ ASSUMPTIONS = [
     "iteration orders: sorted and reversed), not for all inputs",
     "derivation skeletons are evaluated for bounded orders/spaces only (quick: orders <= 3, norm_factor/s_root <= 6; thorough adds order 4, "
     "s_root 7, doubles blocks); wicks, simplify, operators and tensors are uninterpreted, indices follow the reference registry model",
-    "order taint does not follow values through calls of other repository functions (an argument is a sink) nor through "
-    "attributes of self; set-valued dict entries (d[k] being a set) are not typed as unordered",
+    "order taint follows a value into a repository function only when the callee is uniquely resolved (bare name, self./cls. "
+    "method), back out of private/nested helpers only when all callers are known; other calls (sympy, methods of other "
+    "objects) are sinks; attributes of self are not followed; set-valued dict entries (d[k] being a set) are not typed as unordered",
     "call-graph closure resolves attribute calls by method name over the whole package (over-approximation)",
+    "R19k models find_compatible_terms as 'the first term of a class represents it'; R19l assumes that sub-results of order 0 "
+    "(norm factors below order 2) carry no generic indices and compares ages, not full texts",
     "R19e explores histories of depth <= 3 with spin-free occupied requests; R19i models inspect.signature/bind/apply_defaults, "
     "functools.wraps and property by reference implementations; R19j models the expression as a list of tensor names "
     "(rename_tensor renames every tensor of that name, atoms lists the names present) for seven configurations",
@@ -294,7 +308,8 @@ def r19a_keys(ctx):
 # end the taint; a return/yield, an argument of another function, indexing, an effect performed per element ... is a
 # sink.  A read that reaches a sink is a violation unless the order-permuting differential evaluation below discharges it.
 
-ORDER_FREE_CALLS = {"sorted", "set", "frozenset", "any", "all", "sum", "len", "min", "max", "Mul", "Add", "Counter", "bool", "prod", "fsum"}
+ORDER_FREE_CALLS = {"sorted", "set", "frozenset", "any", "all", "sum", "len", "min", "max", "Mul", "Add", "Counter", "bool", "prod", "fsum",
+                    "isinstance", "type"}
 PASS_THROUGH_CALLS = {"list", "tuple", "enumerate", "zip", "reversed", "iter", "map", "filter", "chain", "from_iterable",
                       "product", "permutations", "combinations", "combinations_with_replacement", "islice", "deque"}
 SET_METHODS = {"atoms", "intersection", "union", "difference", "symmetric_difference", "free_symbols"}
@@ -377,10 +392,110 @@ class SetOrder:
                     return True
             if any(self.unordered(v, sc, depth - 1, seen) for v in sc.values(e.id)):
                 return True
+            if e.id in sc.params and not sc.values(e.id) and depth > 1 and self.param_unordered(sc.fn, e.id, depth - 2):
+                return True
             return e.id in self.tainted_dicts(sc)
         if isinstance(e, ast.Attribute) and e.attr in SET_METHODS:
             return True
         return False
+
+    def param_unordered(self, fn, pname, depth=2):
+        """some call of the (private or nested) function inside the package passes a set for this parameter"""
+        if not hasattr(self, "_calls_by_name"):
+            self._calls_by_name, self._punord = {}, {}
+            for m in self.model.modules.values():
+                for n in ast.walk(m.tree):
+                    if isinstance(n, ast.Call):
+                        self._calls_by_name.setdefault(call_name(n), []).append(n)
+        key = (id(fn), pname)
+        if key in self._punord:
+            return self._punord[key]
+        self._punord[key] = False
+        params = [a.arg for a in fn.args.posonlyargs + fn.args.args]
+        for call in self._calls_by_name.get(fn.name, []):
+            f = call.func
+            if isinstance(f, ast.Name):
+                if not any(g is fn for g in self.cg.resolve_name(f.id, call)):
+                    continue
+                ps = params
+            elif isinstance(f, ast.Attribute) and isinstance(f.value, ast.Name) and f.value.id in ("self", "cls") and \
+                    call._module is fn._module and getattr(call, "_cls", None) == getattr(fn, "_cls", None):
+                ps = params[1:] if params and params[0] in ("self", "cls") else params
+            else:
+                continue
+            arg = None
+            for k, a in enumerate(call.args):
+                if isinstance(a, ast.Starred):
+                    break
+                if k < len(ps) and ps[k] == pname:
+                    arg = a
+            for kw in call.keywords:
+                if kw.arg == pname:
+                    arg = kw.value
+            caller = enclosing(call, FuncNode)
+            if arg is not None and caller is not None and self.unordered(arg, self.scope(caller), depth):
+                self._punord[key] = True
+                break
+        return self._punord[key]
+
+    def callers(self, fn):
+        """call expressions inside the package that call the private / nested function ``fn`` (None: not all are known)"""
+        self.param_unordered(fn, "")        # builds the call index
+        if not (fn.name.startswith("_") and not fn.name.startswith("__") or getattr(fn, "_fn", None) is not None):
+            return None
+        out = []
+        for call in self._calls_by_name.get(fn.name, []):
+            f = call.func
+            if isinstance(f, ast.Name) and any(g is fn for g in self.cg.resolve_name(f.id, call)):
+                out.append(call)
+            elif isinstance(f, ast.Attribute) and isinstance(f.value, ast.Name) and f.value.id in ("self", "cls") and \
+                    call._module is fn._module and getattr(call, "_cls", None) == getattr(fn, "_cls", None):
+                out.append(call)
+            elif isinstance(f, ast.Attribute):
+                return None     # called on another object: not all callers are known
+        return out or None
+
+    def _passes_unordered(self, call, fn, pname):
+        params = [a.arg for a in fn.args.posonlyargs + fn.args.args]
+        if isinstance(call.func, ast.Attribute) and params and params[0] in ("self", "cls"):
+            params = params[1:]
+        arg = None
+        for k, a in enumerate(call.args):
+            if isinstance(a, ast.Starred):
+                return True
+            if k < len(params) and params[k] == pname:
+                arg = a
+        for kw in call.keywords:
+            if kw.arg == pname:
+                arg = kw.value
+        caller = enclosing(call, FuncNode)
+        return arg is not None and caller is not None and self.unordered(arg, self.scope(caller), 3)
+
+    def through_callers(self, sinks, fn, depth=2, param=None):
+        """A value that only leaves a private helper through its return value is followed into the callers (``param``: the
+        tainted value is that parameter - only the callers that pass a set for it are concerned)."""
+        rets = [s for s in sinks if s[1] in ("returned", "yielded")]
+        if not rets or depth <= 0:
+            return sinks
+        calls_ = self.callers(fn)
+        if calls_ is None:
+            return sinks
+        if param is not None:
+            calls_ = [c_ for c_ in calls_ if self._passes_unordered(c_, fn, param)]
+        out = [s for s in sinks if s[1] not in ("returned", "yielded")]
+        for call in calls_:
+            caller = enclosing(call, FuncNode)
+            if caller is None:
+                out.append((call, "result used at module level"))
+                continue
+            saved = self.sc
+            self.sc = self.scope(caller)
+            try:
+                inner = self.value_sinks(call, False)
+            finally:
+                self.sc = saved
+            out.extend(self.through_callers(inner, caller, depth - 1))
+        return out
 
     def returns_unordered(self, fn):
         if id(fn) not in self._ret_unordered:
@@ -628,7 +743,10 @@ class SetOrder:
             return self.value_sinks(p, nested)
         if isinstance(p, ast.keyword):
             call = p._parent
-            return [] if call_name(call) in ORDER_FREE_CALLS and not nested else [(call, f"passed to {call_name(call)}(..)")]
+            if call_name(call) in ORDER_FREE_CALLS and not nested:
+                return []
+            r = self.into_callee(call, v, nested)
+            return r if r is not None else [(call, f"passed to {call_name(call)}(..)")]
         if isinstance(p, ast.Call):
             nm = call_name(p)
             if nm in ("sorted", "min", "max") and not nested and not self.total_key(p):
@@ -644,7 +762,8 @@ class SetOrder:
                 return []
             if isinstance(p.func, ast.Attribute) and nm in SEQ_GROW | {"add", "update", "setdefault"}:
                 return self.container_sinks(p.func.value, p, nested=True)
-            return [(p, f"passed to {nm}(..)")]
+            r = self.into_callee(p, v, nested)
+            return r if r is not None else [(p, f"passed to {nm}(..)")]
         if isinstance(p, ast.Attribute):        # v.method(...) / v.attr
             call = getattr(p, "_parent", None)
             if not (isinstance(call, ast.Call) and call.func is p):
@@ -740,6 +859,50 @@ class SetOrder:
             return []
         return [(p, f"used in {type(p).__name__}")]
 
+    def into_callee(self, call, arg, nested):
+        """The tainted value is an argument of a repository function that can be looked into: follow the bound parameter
+        through the callee exactly like a local name; a tainted return value taints the call expression in the caller.
+        None: the callee is unknown (sympy, builtins, methods of other objects) - the caller treats the call as a sink."""
+        f = call.func
+        cands = []
+        if isinstance(f, ast.Name):
+            cands = [g for g in self.cg.resolve_name(f.id, call) if isinstance(g, FuncNode)]
+        elif isinstance(f, ast.Attribute) and isinstance(f.value, ast.Name) and f.value.id in ("self", "cls"):
+            cls = getattr(call, "_cls", None)
+            g = call._module.functions.get(f"{cls}.{f.attr}") if cls else None
+            cands = [g] if g is not None else []
+        if len(cands) != 1 or any(isinstance(a, ast.Starred) for a in call.args) or any(k.arg is None for k in call.keywords):
+            return None
+        g = cands[0]
+        if g.args.vararg or g.args.kwarg or any(isinstance(x, (ast.Yield, ast.YieldFrom)) for x in walk_fn(g, nested=False)) and False:
+            return None
+        params = [a.arg for a in g.args.posonlyargs + g.args.args]
+        if isinstance(f, ast.Attribute) and params and params[0] in ("self", "cls"):
+            params = params[1:]
+        pname = None
+        for k, a in enumerate(call.args):
+            if a is arg and k < len(params):
+                pname = params[k]
+        for kw in call.keywords:
+            if kw.value is arg:
+                pname = kw.arg
+        if pname is None or pname not in [a.arg for a in g.args.posonlyargs + g.args.args + g.args.kwonlyargs]:
+            return None
+        key = ("callee", id(g), pname, nested)
+        if key in self.seen:
+            return []
+        self.seen.add(key)
+        saved = self.sc
+        self.sc = self.scope(g)
+        try:
+            inner = self.name_sinks(pname, g.args, nested)
+        finally:
+            self.sc = saved
+        out = [(s, f"{why} in {g.name}()") for s, why in inner if why not in ("returned", "yielded")]
+        if any(why in ("returned", "yielded") for _, why in inner):
+            out.extend(self.value_sinks(call, False))       # the result of the call carries the order
+        return out
+
     def _is_dict(self, e, depth=3):
         if isinstance(e, (ast.Dict, ast.DictComp)):
             return True
@@ -755,9 +918,16 @@ class SetOrder:
         value): follow the container"""
         depth = 0
         base = recv
-        while isinstance(base, (ast.Subscript, ast.Attribute)) and not (isinstance(base, ast.Attribute) and isinstance(base.value, ast.Name) and base.value.id in ("self", "cls")):
-            depth += isinstance(base, ast.Subscript)
-            base = base.value
+        while True:
+            if isinstance(base, ast.Call) and isinstance(base.func, ast.Attribute) and base.func.attr in ("setdefault", "get", "__getitem__"):
+                depth += 1          # d.setdefault(k, []) / d.get(k): an entry of the container d
+                base = base.func.value
+                continue
+            if isinstance(base, (ast.Subscript, ast.Attribute)) and not (isinstance(base, ast.Attribute) and isinstance(base.value, ast.Name) and base.value.id in ("self", "cls")):
+                depth += isinstance(base, ast.Subscript)
+                base = base.value
+                continue
+            break
         if isinstance(base, ast.Name) and base.id not in ("self", "cls"):
             return self.name_sinks(base.id, at, nested or depth > 0)
         return [(at, f"stored in {short(recv, 40)}")]
@@ -1044,6 +1214,8 @@ def _diff_evaluate_deltas(ctx, order, log):
         o = Obj(None, f"{kind}[{','.join(i.name for i in idx)}]")
         o.attrs["_classes"] = {"KroneckerDelta"} if kind == "delta" else {"AntiSymmetricTensor", "SymbolicTensor"}
         o.attrs["atoms"] = lambda sx_, a, kw, idx=idx: set(idx)
+        o.attrs["has"] = lambda sx_, a, kw, idx=idx: any(x is i for i in idx for x in a)
+        o.attrs["is_commutative"] = kind not in ("F", "Fd")
         o.__dict__["kind"], o.__dict__["idx"] = kind, list(idx)
         if kind == "delta":
             o.attrs["preferred_and_killable"] = pk
@@ -1085,6 +1257,26 @@ def _diff_evaluate_deltas(ctx, order, log):
                         hooks={"get_symbols": lambda s_, a_, k_: list(a_[0]) if isinstance(a_[0], (list, tuple)) else NotImplemented})
         outs = sx.run(fn, lambda: dict(zip(("expr", "target_idx"), scen(k))))
         res.append(sorted((o.kind, o.value.name if isinstance(o.value, Obj) else _okey(o.value)) for o in outs))
+    # wicks with simplify_kronecker_deltas: the target indices of the input (indices on a single object, collected in a dict in
+    # the order of atoms()) are handed to evaluate_deltas for every contracted term
+    p_, q_, r_, s_, i_ = (_idx(n) for n in "pqrsi")
+
+    def wicks_args():
+        e_in = mul([factor("d", [p_, q_]), factor("X", [r_, s_]), factor("Fd", [p_]), factor("F", [q_])])
+        e_in.attrs["doit"] = lambda sx_, a, kw: e_in
+        e_in.attrs["expand"] = lambda sx_, a, kw: e_in
+        return dict(expr=e_in, rules=None, simplify_kronecker_deltas=True)
+
+    def terms(sx_, a, kw):
+        return [mul([factor("d", [p_, q_]), factor("X", [r_, s_]), factor("delta", [p_, q_], (p_, q_)), factor("delta", [q_, i_], (i_, q_))]),
+                mul([factor("d", [p_, q_]), factor("X", [r_, s_]), factor("delta", [r_, q_], (r_, q_)), factor("delta", [p_, s_], (s_, p_))])]
+    sx = OrderSymex(ctx.model, inline=lambda q: q in ("func:wicks", "func:evaluate_deltas", "func:_indices_on_single_object"), order=order, log=log,
+                    what="wicks", max_paths=512,
+                    hooks={"get_symbols": lambda s_2, a_, k_: list(a_[0]) if isinstance(a_[0], (list, tuple)) else NotImplemented,
+                           "_contract_operator_string": lambda s_2, a_, k_: sym("contractions"),
+                           "Add.make_args": terms, "Mul.make_args": lambda s_2, a_, k_: list(a_[0].attrs["args"]) if isinstance(a_[0], Obj) else NotImplemented})
+    outs = sx.run(ctx.model.fn("func:wicks"), wicks_args)
+    res.append(sorted((o.kind, repr(canon(o.value)) if o.kind == "return" else str(o.exc)) for o in outs))
     return res
 
 
@@ -1223,7 +1415,8 @@ def r19a_sets(ctx):
             n_sites += 1
             oref = f"{ref.split(':')[0]}:{sc.fn._qual}"
             origin = _origin(so, src, sc)
-            sinks = so.sinks_of_read(src, node, sc)
+            prm = src.id if isinstance(src, ast.Name) and src.id in sc.params and not sc.values(src.id) else None
+            sinks = so.through_callers(so.sinks_of_read(src, node, sc), sc.fn, param=prm)
             run_node = node.iter if isinstance(node, ast.comprehension) else node
             entry = reached.get(id(run_node))
             key = f"{oref} {origin}"
@@ -2543,6 +2736,216 @@ def r19j(ctx):
                       key=f"simultaneous {what} {order}")
 
 
+# ====================================================================== R19k
+# Orders that depend on the call history: ``Expr.terms`` follows sympy's argument order, which compares Dummy indices by
+# their name strings ('i4' < 'o3'), while generic names wrap around (.. n3, o3, i4 ..) as the counters advance.  A choice
+# that follows that order (representative of a class of equivalent terms) must not survive into the result: simplify is
+# evaluated on a model expression for both orders of two equivalent terms and has to return the same result.
+
+def r19k(ctx):
+    rule = "R19k"
+    fn = ctx.model.fn("simplify:simplify")
+
+    def run(first):
+        # two terms that are equal up to a renaming of contracted indices; ``text`` is the form with the lowest indices
+        def term(label, text):
+            t = Obj("expr_container:Term", label)
+            t.attrs["substitute_contracted"] = lambda s_, a_, k_: text
+            t.attrs["subs"] = lambda s_, a_, k_: a_[-1] if a_ and isinstance(a_[-1], (Obj, T)) else sym("?")
+            return t
+        A, B, C = term("A", "g(i,j)*p(i)*q(j)"), term("B", "g(j,i)*p(j)*q(i)"), term("C", "h(i)")
+        terms = [A, B, C] if first == "A" else [B, A, C]
+        ex = Obj("expr_container:Expr", "expr")
+        ex.attrs.update(_classes={"Expr", "Container"}, terms=terms)
+        ex.attrs["expand"] = lambda s_, a_, k_: ex
+
+        def compatible(s_, a_, k_):
+            ts = a_[0] if a_ else k_.get("terms")
+            if not isinstance(ts, list):
+                return NotImplemented
+            # the first of the equivalent terms represents the class; the others are mapped onto it
+            eq = [k for k, t in enumerate(ts) if t is A or t is B]
+            rest = [k for k, t in enumerate(ts) if t is C]
+            return {eq[0]: {eq[1]: ts[eq[0]]}, rest[0]: {}}
+        sx = Symex(ctx.model, inline=lambda q: False, what="simplify", max_paths=64,
+                   hooks={"find_compatible_terms": compatible, "len": lambda s_, a_, k_: len(terms) if a_ and a_[0] is ex else NotImplemented})
+        outs = sx.run(fn, lambda: dict(expr=ex))
+        return sorted((o.kind, repr(canon(o.value)) if o.kind == "return" else str(o.exc)) for o in outs)
+    r1, r2 = run("A"), run("B")
+    ctx.check(rule, fn, bool(r1) and all(k == "return" for k, _ in r1), "simplify evaluates on the model expression",
+              f"simplify does not return on the model expression: {r1}", key="simplify evaluates")
+    ctx.check(rule, fn, r1 == r2, "the representative of equivalent terms does not follow the order of Expr.terms",
+              f"simplify returns {r1} when the term g(i,j)p(i)q(j) comes first in Expr.terms and {r2} when its renamed twin "
+              "g(j,i)p(j)q(i) comes first; the order of Expr.terms follows the name strings of the generic indices (sympy), which "
+              "wrap around with the generic counters: the text of the result depends on the requests that preceded it",
+              key="representative follows Expr.terms")
+
+
+# ====================================================================== R19l
+# Cache age: a member cache hands out the stored expression with the generic indices it was built with.  (A) By evaluating
+# Term.substitute_contracted on a model term with two groups of contracted indices it is decided whether the lowest names
+# are handed out by the rank (= creation age) of the current generic names; (B) a derivation method is evaluated with the
+# member caches cold and with one sub-result already cached (its indices are older than everything computed now) and the
+# relative age of the index groups that meet in one product is compared.  If the names follow the age (A) and the ages
+# depend on the cache state (B), the text of the result depends on which cached results preceded the request.
+
+def _generic_name(k):
+    base = "ijklmno"
+    return base[k % len(base)] + str(3 + k // len(base))
+
+
+def _naming_follows_age(ctx):
+    """(names the group G receives when it is older than H, ... when it is younger); None if not evaluable"""
+    fn = ctx.model.fn("expr_container:Term.substitute_contracted")
+    key_fn = ctx.model.fn("indices:sort_idx_canonical")
+    out = []
+    for g_first in (True, False):
+        names = [_generic_name(k) for k in range(3)]
+        g_names, h_names = (names[:2], names[2:]) if g_first else (names[1:], names[:1])
+        objs = {}
+
+        def get_symbols(s_, a_, k_):
+            ns = a_[0] if a_ else k_.get("indices")
+            if isinstance(ns, str):
+                ns = _split_names(ns)
+            if not isinstance(ns, (list, tuple)) or not all(isinstance(n, str) for n in ns):
+                return NotImplemented
+            return [objs.setdefault(n, _idx(n)) for n in ns]
+        kx = Symex(ctx.model, inline=lambda q: True, what="sort_idx_canonical")
+
+        def ckey(o):
+            r = kx.run(key_fn, lambda: dict(idx=o))
+            if len(r) != 1 or r[0].kind != "return":
+                raise AnalysisError(f"R19l: sort key of {o.name}: {r}")
+            return tuple(x for x in r[0].value if not isinstance(x, T))
+
+        def args():
+            objs.clear()
+            G = [objs.setdefault(n, _idx(n)) for n in g_names]
+            H = [objs.setdefault(n, _idx(n)) for n in h_names]
+            for o in G + H:
+                o.attrs["dummy_index"] = sym("dummy:" + o.name)
+            me = Obj("expr_container:Term", "term")
+            sy = Obj(None, "term.sympy")
+            sy.attrs["subs"] = lambda s_, a_, k_: sym("substituted")
+            sy.attrs["atoms"] = lambda s_, a_, k_, all_=tuple(G + H): set(all_)
+            me.attrs.update(contracted=tuple(sorted(G + H, key=ckey)), target=(), sympy=sy, assumptions={})
+            me.__dict__["G"] = G
+            return dict(self=me, return_sympy=False, only_build_sub=True)
+        sx = Symex(ctx.model, inline=lambda q: q in ("indices:get_lowest_avail_indices", "indices:order_substitutions") or
+                   q.startswith("expr_container:Term.") or q.startswith("expr_container:_"), what="substitute_contracted",
+                   hooks={"get_symbols": get_symbols}, max_paths=64)
+        holder = {}
+
+        def args2():
+            d = args()
+            holder["G"] = d["self"].G
+            return d
+        try:
+            outs = sx.run(fn, args2)
+        except AnalysisError:
+            return None     # not evaluable on the model term: the clause is not decided
+        if len(outs) != 1 or outs[0].kind != "return" or not isinstance(outs[0].value, list):
+            return None
+        sub = {id(o): n for o, n in outs[0].value if isinstance(o, Obj) and isinstance(n, Obj)}
+        out.append(tuple(sub[id(g)].attrs["name"] if id(g) in sub else g.attrs["name"] for g in holder["G"]))
+    return tuple(out)
+
+
+class _AgedLeaves:
+    """member-cache model for the leaves of a derivation: a leaf computed now gets the current time stamp, a leaf found
+    in the cache keeps the stamp of its first computation"""
+
+    def __init__(self, prefilled=()):
+        self.prefilled = tuple(prefilled)
+        self.reset()
+
+    def reset(self):
+        self.clock = 100
+        self.memo = {k: age for age, k in enumerate(self.prefilled)}
+
+    def leaf(self, name, fn, cached):
+        def hook(sx, a, kw):
+            b = sx.bind(fn, a, kw, False, True, True)
+            b.pop("self", None)
+            key = (name, tuple((k, _freeze(v)) for k, v in b.items()))
+            self.clock += 1
+            if cached:
+                age = self.memo.setdefault(key, self.clock)
+            else:
+                age = self.clock
+            return T("leaf", name, key[1], age)
+        return hook
+
+
+def _leaf_orders(value):
+    """for every fully distributed product of the value: leaves (name, arguments) in the order of their age"""
+    v = strip(value, dx.TRANSPARENT_CALLS + ("wicks",), dx.TRANSPARENT_MCALLS, dx.TRANSPARENT_ATTRS)
+    out = {}
+    for t in subterms(v):
+        if t.op == "mul":
+            for c_, fs in expand_products(t):
+                # only sub-results that carry generic contracted indices: wavefunctions of order >= 1, norm factors of order >= 2
+                leaves = sorted({x for f in fs for x in subterms(f) if x.op == "leaf" and
+                                 dict(x.args[1]).get("order", 0) >= (2 if x.args[0] == "norm_factor" else 1)}, key=lambda x: x.args[2])
+                if len(leaves) >= 2:
+                    ident = frozenset((x.args[0], x.args[1]) for x in leaves)
+                    out.setdefault(ident, set()).add(tuple((x.args[0], x.args[1]) for x in leaves))
+    return out
+
+
+def r19l(ctx):
+    rule = "R19l"
+    fn = ctx.model.fn("misc:cached_member")
+    naming = _naming_follows_age(ctx)
+    follows = naming is not None and naming[0] != naming[1]
+    # (B) intermediate_state(2) cold / with the first order bra precursor of the target indices already cached
+    target = IS + ".intermediate_state"
+    args = dict(order=2, space="ph", braket="bra", indices="k5c5")
+    pre = ("precursor", (("order", 1), ("space", "ph"), ("braket", "bra"), ("indices", "k5c5")))
+    results = []
+    for prefilled in ((), (pre,)):
+        aged = _AgedLeaves(prefilled)
+        im = IndexModel()
+        hk = im.hooks()
+        for ref, nm in ((IS + ".precursor", "precursor"), (GS + ".norm_factor", "norm_factor")):
+            f = ctx.model.fn(ref)
+            hk[ref.split(":")[1]] = aged.leaf(nm, f, is_cached(f))
+        hk["expand_S_taylor"] = lambda s_, a_, k_: _taylor(k_.get("order", [x for x in a_ if not isinstance(x, Obj)][0] if [x for x in a_ if not isinstance(x, Obj)] else None),
+                                                          k_.get("min_order", 2), "s")
+        scen = dx.Scenario()
+        sx = dx.make_sx(ctx, "intermediate_state cold/warm", scen, extra_inline={IS + ".s_root", IS + ".overlap_precursor"}, hooks=hk,
+                        max_paths=4096, occurrence=lambda name: False, oracle=dx.nothing_vanishes)
+        base = scen.reset
+
+        def reset(s, base=base, aged=aged, im=im):
+            base(s)
+            aged.reset()
+            im.reset()
+        sx.on_start = reset
+        outs = sx.run(ctx.model.fn(target), lambda: dict(self=DerivEval(ctx).objects(scen)[IS], **args))
+        rets = [o for o in outs if o.kind == "return"]
+        if len(rets) != 1:
+            raise AnalysisError(f"R19l: intermediate_state(2) has {len(rets)} full paths")
+        results.append(_leaf_orders(rets[0].value))
+    cold, warm = results
+    flipped = sorted((sorted(cold[k])[0], sorted(warm[k])[0]) for k in cold if k in warm and cold[k] != warm[k])
+    ctx.floor(rule, "products of intermediate_state(2) in which two sub-results with generic indices meet", len(cold), 1)
+    show_leaf = lambda l: f"{l[0]}({', '.join(str(v) for _, v in l[1])})"      # noqa: E731
+    ex = ""
+    if flipped:
+        c0, w0 = flipped[0]
+        ex = (f"in the product of {' * '.join(show_leaf(l) for l in sorted(c0))} the index groups are created in the order "
+              f"[{' < '.join(show_leaf(l) for l in c0)}] with cold caches and [{' < '.join(show_leaf(l) for l in w0)}] when "
+              "isr.precursor(1, 'ph', 'bra', <target indices>) was requested before")
+    ctx.check(rule, fn, not (follows and flipped), "the text of a derivation result does not depend on the state of the member caches",
+              f"Term.substitute_contracted hands out the lowest names by the creation age of the generic indices (a group of two "
+              f"indices is named {naming[0] if naming else ''} when it is older and {naming[1] if naming else ''} when it is younger than "
+              f"another group) and cached_member returns stored expressions with the indices they were built with: {ex}; {len(flipped)} of "
+              f"{len(cold)} products of intermediate_state(2, 'ph', 'bra') change the relative age of their index groups, so the text after "
+              "substitute_contracted depends on which cached results preceded the request (the value does not)", key="cache age")
+
+
 # ====================================================================== R19f
 # Objects handed out by a cache are shared by all later callers: alias flow from every use of a cached method/property
 # with a mutable result to in-place mutations (mutator methods, item/attribute stores, augmented assignment, passing to
@@ -2772,6 +3175,10 @@ def run(ctx):
         r19i(ctx)
     if ctx.want("R19j"):
         r19j(ctx)
+    if ctx.want("R19k"):
+        r19k(ctx)
+    if ctx.want("R19l"):
+        r19l(ctx)
 
 
 def run_thorough(ctx):
